@@ -192,10 +192,10 @@ class NonTermination(Exception):
 
 
 def _timeout(signum, frame):
-    raise NonTermination("assign() still running after 20 s of CPU time")
+    raise NonTermination("assign() exceeded its CPU-time limit")
 
 
-def run_sticky(case, with_log=True):
+def run_sticky(case, with_log=True, limit=20.0):
     global LOG
     _install()
     LOG = {"assigns": [], "reassigns": [], "scores": []} if with_log else None
@@ -203,7 +203,7 @@ def run_sticky(case, with_log=True):
         # CPU-time watchdog: assign() is a terminating function of its input (milliseconds on these sizes); a case
         # still running after 20 s of CPU is reported as non-termination with the case as replay
         signal.signal(signal.SIGVTALRM, _timeout)
-        signal.setitimer(signal.ITIMER_VIRTUAL, 20.0)
+        signal.setitimer(signal.ITIMER_VIRTUAL, limit)
         try:
             out = StickyPartitionAssignor.assign(make_cluster(case), sticky_metadata(case))
         finally:
@@ -216,6 +216,14 @@ def run_sticky(case, with_log=True):
             res.update(init=LOG["init"], prev=LOG["prev"], assigns=LOG["assigns"],
                        reassigns=LOG["reassigns"], final=LOG["final"],
                        reverted=int(len(sc) == 2 and sc[0] >= sc[1]), nscores=len(sc))
+        return res
+    except NonTermination:
+        # On a heavily loaded (virtualised) machine the CPU-time timer has fired on inputs that take a millisecond when
+        # run again: the case is decided by a second run with a limit of 300 s before it is reported
+        if limit < 100.0:
+            LOG = None
+            return run_sticky(case, with_log, limit=300.0)
+        res = {"exc": "NonTermination: assign() still running after 20 s and, run again, after 300 s of CPU time"}
         return res
     except Exception as e:  # noqa: BLE001
         res = {"exc": f"{type(e).__name__}: {e!r}"[:300]}
